@@ -1,6 +1,7 @@
 package main
 
 import (
+	"go/token"
 	"fmt"
 	"go/ast"
 	"go/types"
@@ -154,6 +155,23 @@ func c19CliArgsQuoted(c *Check, a *Anchors) {
 			}
 		}
 	}
+	// "every argument": nothing in the loop skips an element before it is quoted and appended
+	skip := ""
+	for _, s := range loop.Body.List {
+		if as, ok := s.(*ast.AssignStmt); ok && len(as.Rhs) == 1 {
+			if call, ok := ast.Unparen(as.Rhs[0]).(*ast.CallExpr); ok && isBuiltin(linfo, call, "append") {
+				break
+			}
+		}
+		if ifs, ok := s.(*ast.IfStmt); ok {
+			for _, st := range ifs.Body.List {
+				if br, ok := st.(*ast.BranchStmt); ok && (br.Tok == token.CONTINUE || br.Tok == token.BREAK) {
+					skip = exprStr(ifs.Cond)
+				}
+			}
+		}
+	}
+	c.Decide(skip == "", "cli-args-quoted", "no-arg-skipped@"+name, loop.Pos(), "no argument after `--` is skipped", "the loop over the arguments after `--` skips an element when `"+skip+"`: that argument (for example a second literal `--`) never reaches CLI_ARGS")
 	c.Decide(quoteOK, "cli-args-quoted", "each-arg-quoted@"+name, loop.Pos(), "syntax.Quote(arg, syntax.LangBash) on every argument", "the arguments after `--` are not each passed through syntax.Quote(arg, syntax.LangBash) (language: "+lang+"): an argument with spaces, quotes or control characters is split, re-interpreted or rejected")
 	// the accumulated slice is what comes back as the second result of args.Get
 	if helperCall != nil {
@@ -387,6 +405,34 @@ func c19InitPath(c *Check, a *Anchors) {
 	})
 	fromPos := positional != nil && positional.Name() != "_" && mentionsViaMulti(info, run.Body, initCall.Args[0], positional, 4)
 	fromQuoted := quotedV != nil && quotedV.Name() != "_" && mentionsViaMulti(info, run.Body, initCall.Args[0], quotedV, 4)
+	// ... and directly: not through the call/assignment parser, which takes every NAME=value argument out of the list
+	viaParse := false
+	{
+		seen := map[*types.Var]bool{}
+		var walk func(e ast.Node, depth int)
+		walk = func(e ast.Node, depth int) {
+			if depth > 5 {
+				return
+			}
+			ast.Inspect(e, func(m ast.Node) bool {
+				if call, ok := m.(*ast.CallExpr); ok && isFunc(callee(info, call), PkgArgs, "", "Parse") {
+					viaParse = true
+				}
+				if id, ok := m.(*ast.Ident); ok {
+					if v, ok := info.Uses[id].(*types.Var); ok && !v.IsField() && !seen[v] {
+						seen[v] = true
+						for _, d := range defsOf(info, run.Body, v) {
+							walk(d, depth+1)
+						}
+					}
+				}
+				return true
+			})
+		}
+		walk(initCall.Args[0], 0)
+	}
+	c.Decide(!viaParse, "init-path", "path-not-through-parser@"+fnDisplay(run), initCall.Pos(), "the path is taken from the raw positional arguments",
+		"the --init path is derived from the result of args.Parse, which removes every argument containing '=' from the calls: `task --init conf/stage=dev.yml` writes ./Taskfile.yml (or refuses because one exists) instead of the requested file")
 	c.Decide(fromPos && !fromQuoted, "init-path", "path-from-positional@"+fnDisplay(run), initCall.Pos(), "derived from the first result of args.Get",
 		fmt.Sprintf("the --init path is not derived from the positional arguments (from positional: %v, from the quoted post-`--` list: %v): `task --init dir/Taskfile.yml` writes somewhere else", fromPos, fromQuoted))
 	// extension-only keeps the directory
